@@ -140,6 +140,11 @@ pub struct Cfg {
     pub special: Option<(u8, Stat)>,
     pub mid_on: bool,
     pub rid_on: bool,
+    /// how the header-extension block of every packet is laid out on the wire: 0 = as rustrtc's own
+    /// encoder writes it (elements, then trailing padding); 1 = a filler element first and the
+    /// MID / RID element(s) ending EXACTLY at the end of the block (no padding at all); 2 = a padding
+    /// byte before / between the elements; 3 = RID before MID with the filler between them, exact fit
+    pub layout: u8,
 }
 
 impl Cfg {
@@ -149,6 +154,7 @@ impl Cfg {
             "special": self.special.map(|(l, s)| json!({"listener": l, "status": s.name()})),
             "mid_ext_id_set": self.mid_on,
             "rid_ext_id_set": self.rid_on,
+            "layout": self.layout,
         })
     }
     pub fn from_json(v: &Value) -> Option<Cfg> {
@@ -158,7 +164,7 @@ impl Cfg {
         } else {
             Some((v["special"]["listener"].as_u64()? as u8, Stat::parse(v["special"]["status"].as_str()?)?))
         };
-        Some(Cfg { ops, special, mid_on: v["mid_ext_id_set"].as_bool()?, rid_on: v["rid_ext_id_set"].as_bool()? })
+        Some(Cfg { ops, special, mid_on: v["mid_ext_id_set"].as_bool()?, rid_on: v["rid_ext_id_set"].as_bool()?, layout: v["layout"].as_u64().unwrap_or(0) as u8 })
     }
     pub fn used(&self) -> [bool; NL] {
         let mut u = [false; NL];
@@ -231,6 +237,71 @@ impl Pkt {
     pub fn short(self) -> String {
         format!("s{}/p{}/mid={}/rid={}", self.s + 1, self.p + 1, Self::ext_name(self.mid, "m"), Self::ext_name(self.rid, "r"))
     }
+    fn build_wire_layout(self, layout: u8) -> Bytes {
+        if layout == 0 {
+            return self.build_wire();
+        }
+        let i = self.idx();
+        let mut h = RtpHeader::new(PT[self.p as usize], i, i as u32 * 160, SSRC[self.s as usize]);
+        let val = |c: u8, tab: &[&str; 3]| -> Option<Vec<u8>> {
+            match c {
+                0 => None,
+                1 | 2 | 3 => Some(tab[(c - 1) as usize].as_bytes().to_vec()),
+                _ => Some(BAD_UTF8.to_vec()),
+            }
+        };
+        let el = |id: u8, v: &[u8]| -> Vec<u8> {
+            let mut e = vec![(id << 4) | (v.len() as u8 - 1)];
+            e.extend_from_slice(v);
+            e
+        };
+        let mid = val(self.mid, &MID_STR).map(|v| el(MID_EXT_ID, &v));
+        let rid = val(self.rid, &RID_STR).map(|v| el(RID_EXT_ID, &v));
+        // a filler element (id 5, an audio level as far as anyone is concerned) of total size f
+        let filler = |n: usize| -> Vec<u8> {
+            let f = match (4 - n % 4) % 4 {
+                0 => 0,
+                1 => 5,
+                f => f,
+            };
+            if f == 0 { vec![] } else { el(5, &vec![0x7f; f - 1]) }
+        };
+        let mut data: Vec<u8> = vec![];
+        match layout {
+            1 => {
+                let n = mid.as_ref().map_or(0, |e| e.len()) + rid.as_ref().map_or(0, |e| e.len());
+                if n > 0 {
+                    data.extend(filler(n));
+                    data.extend(mid.iter().flatten());
+                    data.extend(rid.iter().flatten());
+                }
+            }
+            2 => {
+                let els: Vec<&Vec<u8>> = mid.iter().chain(rid.iter()).collect();
+                for e in &els {
+                    data.push(0);
+                    data.extend(e.iter());
+                }
+                while data.len() % 4 != 0 {
+                    data.push(0);
+                }
+            }
+            _ => {
+                let n = mid.as_ref().map_or(0, |e| e.len()) + rid.as_ref().map_or(0, |e| e.len());
+                if n > 0 {
+                    data.extend(rid.iter().flatten());
+                    data.extend(filler(n));
+                    data.extend(mid.iter().flatten());
+                }
+            }
+        }
+        if !data.is_empty() {
+            assert!(data.len() % 4 == 0);
+            h.extension = Some(rustrtc::rtp::RtpHeaderExtension::new(0xBEDE, data));
+        }
+        let p = RtpPacket::new(h, vec![(i >> 8) as u8, i as u8, 0xAB, 0xCD]);
+        Bytes::from(p.marshal().expect("marshal"))
+    }
     fn build_wire(self) -> Bytes {
         let i = self.idx();
         let mut h = RtpHeader::new(PT[self.p as usize], i, i as u32 * 160, SSRC[self.s as usize]);
@@ -253,8 +324,12 @@ impl Pkt {
 }
 
 pub fn wires() -> &'static Vec<Bytes> {
-    static W: OnceLock<Vec<Bytes>> = OnceLock::new();
-    W.get_or_init(|| (0..N_PKT as u16).map(|i| Pkt::from_idx(i).build_wire()).collect())
+    wires_layout(0)
+}
+
+pub fn wires_layout(layout: u8) -> &'static Vec<Bytes> {
+    static W: [OnceLock<Vec<Bytes>>; 4] = [OnceLock::new(), OnceLock::new(), OnceLock::new(), OnceLock::new()];
+    W[layout as usize % 4].get_or_init(|| (0..N_PKT as u16).map(|i| Pkt::from_idx(i).build_wire_layout(layout % 4)).collect())
 }
 
 /// Packet alphabet used for a configuration (stated reduction): SSRC {s1,s2,s3}; PT = payload
@@ -326,6 +401,7 @@ pub struct World {
     rx: [Option<mpsc::Receiver<Item>>; NL],
     full: Option<u8>,
     buf: Vec<u8>,
+    layout: u8,
 }
 
 #[derive(Clone, Copy, PartialEq, Eq, Hash, Debug, Default)]
@@ -384,11 +460,11 @@ impl World {
             rx[l as usize] = None;
         }
         drop(tx);
-        World { t, rx, full, buf: Vec::with_capacity(256) }
+        World { t, rx, full, buf: Vec::with_capacity(256), layout: cfg.layout }
     }
 
     pub fn feed(&mut self, p: Pkt) -> Obs {
-        let wire = wires()[p.idx() as usize].clone();
+        let wire = wires_layout(self.layout)[p.idx() as usize].clone();
         super::poll_ready(self.t.receive(wire, src_addr(), &mut self.buf));
         let mut o = Obs::default();
         for l in 0..NL {
@@ -680,22 +756,22 @@ pub fn calibrate() -> Flavor {
     let plain = Pkt { s: 0, p: 0, mid: 0, rid: 0 };
     let mut f = Flavor::default();
     {
-        let cfg = Cfg { ops: vec![op(0, Kind::Mid(0)), op(0, Kind::Clear)], special: None, mid_on: true, rid_on: true };
+        let cfg = Cfg { ops: vec![op(0, Kind::Mid(0)), op(0, Kind::Clear)], special: None, mid_on: true, rid_on: true, layout: 0 };
         let mut w = World::build(&cfg, &conn);
         f.clear_mid = w.feed(Pkt { mid: 1, ..plain }).delivered == 0;
     }
     {
-        let cfg = Cfg { ops: vec![op(0, Kind::PtList(1)), op(1, Kind::PtList(1)), op(2, Kind::Prov)], special: None, mid_on: true, rid_on: true };
+        let cfg = Cfg { ops: vec![op(0, Kind::PtList(1)), op(1, Kind::PtList(1)), op(2, Kind::Prov)], special: None, mid_on: true, rid_on: true, layout: 0 };
         let mut w = World::build(&cfg, &conn);
         f.prov_unlisted = w.feed(plain).delivered == 0;
     }
     {
-        let cfg = Cfg { ops: vec![op(0, Kind::PtList(1)), op(1, Kind::PtList(1))], special: Some((0, Stat::ClosedAfter)), mid_on: true, rid_on: true };
+        let cfg = Cfg { ops: vec![op(0, Kind::PtList(1)), op(1, Kind::PtList(1))], special: Some((0, Stat::ClosedAfter)), mid_on: true, rid_on: true, layout: 0 };
         let mut w = World::build(&cfg, &conn);
         f.pt_skips_closed = w.feed(plain).delivered == 0b010;
     }
     {
-        let cfg = Cfg { ops: vec![op(0, Kind::Ssrc(0)), op(1, Kind::Rid(0))], special: Some((1, Stat::ClosedAfter)), mid_on: true, rid_on: true };
+        let cfg = Cfg { ops: vec![op(0, Kind::Ssrc(0)), op(1, Kind::Rid(0))], special: Some((1, Stat::ClosedAfter)), mid_on: true, rid_on: true, layout: 0 };
         let mut w = World::build(&cfg, &conn);
         f.no_closed_bind = w.feed(Pkt { rid: 1, ..plain }).bound & 1 != 0;
     }
@@ -1093,7 +1169,7 @@ pub fn cfgs_for(set: &[Op], with_full: bool) -> Vec<Cfg> {
     }
     let mut out = vec![];
     for ops in &orders {
-        let base = Cfg { ops: ops.clone(), special: None, mid_on: true, rid_on: true };
+        let base = Cfg { ops: ops.clone(), special: None, mid_on: true, rid_on: true, layout: 0 };
         let used = base.used();
         let mut specials = vec![None];
         for l in 0..NL as u8 {
@@ -1111,7 +1187,13 @@ pub fn cfgs_for(set: &[Op], with_full: bool) -> Vec<Cfg> {
                 if (!*m || !*r) && sp.is_some() {
                     continue;
                 }
-                out.push(Cfg { ops: ops.clone(), special: *sp, mid_on: *m, rid_on: *r });
+                out.push(Cfg { ops: ops.clone(), special: *sp, mid_on: *m, rid_on: *r, layout: 0 });
+                // wire-layout variants on the plain receiver status with both extension ids known
+                if sp.is_none() && *m && *r {
+                    for layout in 1..=3u8 {
+                        out.push(Cfg { ops: ops.clone(), special: None, mid_on: true, rid_on: true, layout });
+                    }
+                }
             }
         }
     }
